@@ -18,7 +18,7 @@ def run(ctx):
     if ctx.quick:
         plan = {"gen": [("eq", ret, dict(family=("lease", "admission", "read"), horizon=10, maxep=1, maxins=2, pick="insertion",
                                          ttls=(10,), ticks=(10,), delays=(0,)), 1)],
-                "drv": [("all", "all", 100, 60, {}), ("adm", "admission", 50, 60, {}), ("time", "time", 50, 60, {})]}
+                "drv": [("all", "all", 100, 60, dict(churn_every=50)), ("adm", "admission", 50, 60, {}), ("time", "time", 50, 60, {})]}
     else:
         plan = {"gen": [("eq_ret", ret, dict(family=FAM_ALL, horizon=20, maxep=1, maxins=2, pick="insertion", ttls=(10,)), 1),
                         ("eq_drop", drop, dict(family=FAM_ALL, horizon=20, maxep=2, maxins=2, pick="insertion"), 1)],
